@@ -120,6 +120,9 @@ func c18Accumulate(c *Ctx, fd *ast.FuncDecl, name string, op token.Token, ident 
 		lob.Fail("expected one range loop over the receiver's spine accumulating in the result type (%s) — the fold is not computed directly over the elements", msg)
 		return
 	}
+	if r := v.asRange(loop); r != nil {
+		loop = r
+	}
 	if loop.Range == nil || !v.isRecvSpine(loop.Over) {
 		lob.Fail("the fold loop does not range over the receiver's own spine")
 		return
